@@ -263,6 +263,9 @@ def serial_jobs(m, tier='quick'):
 def history_jobs(m, kinds=(0, 1, 2, 6), tier='quick'):
     base = dict(tu=m.tu, defs=m.defs, unwind=m.unwind, objbits=12, timeout=900)
     job(id='C.%s.history.enter' % m.name, entry='proof_history_enter', props=['C09', 'C03'], tier=tier, carriers=[r'RV_<.*>::replayEnter'], case_key='%s/replayEnter' % m.name, **base)
+    for d in range(1, m.n):
+        job(id='C.%s.history.enter_redirect.d%d' % (m.name, d), entry='step_history_enter_redirect', key=[d], props=['C09', 'C02', 'C03'], quick_for=['C09'], tier=tier,
+            carriers=[r'RV_<.*>::replayEnter', r'R_<.*>::initialEnter'], case_key='%s/replayEnter of an activation redirected to %d' % (m.name, d), **base)
     for k in kinds:
         for d in range(1, m.n):
             job(id='C.%s.history.%s.d%d' % (m.name, KIND_NAMES[k], d), entry='step_history_replay', key=[k, d], props=['C09', 'C01', 'C03'], quick_for=['C09'], tier=tier,
